@@ -154,5 +154,28 @@ func VerifH_C09_UnaryAndScalarOps() {
 		vCtEq(r, d, f, op+"-scalar-result-independent-of-previous-output-content-and-size")
 		vCtEq(r, low, keepLow, op+"-scalar-leaves-its-input-unchanged")
 	}
+	// scalar operations on a degree-2 (not relinearised) ciphertext into a distinct output: every component arrives
+	deg2 := vAtomCiphertext(c, 2, level, "d", 3)
+	keep2 := vCopyCt(deg2)
+	for _, op := range []string{"Mul", "Add", "Sub"} {
+		run := func(in, o *rlwe.Ciphertext) error {
+			switch op {
+			case "Mul":
+				return eval.Mul(in, uint64(5), o)
+			case "Add":
+				return eval.Add(in, uint64(5), o)
+			}
+			return eval.Sub(in, uint64(5), o)
+		}
+		ref := vCopyCt(keep2)
+		vAssert(run(ref, ref) == nil, op+"-scalar-degree2-in-place-no-error")
+		f := NewCiphertext(params, 2, level)
+		vAssert(run(deg2, f) == nil, op+"-scalar-degree2-into-fresh-output-no-error")
+		vCtEq(r, f, ref, op+"-scalar-degree2-distinct-output-same-result-as-in-place")
+		u := vAtomCiphertext(c, 2, level, "junk2"+op, 9)
+		vAssert(run(deg2, u) == nil, op+"-scalar-degree2-into-used-output-no-error")
+		vCtEq(r, u, ref, op+"-scalar-degree2-result-independent-of-previous-output-content")
+		vCtEq(r, deg2, keep2, op+"-scalar-degree2-leaves-its-input-unchanged")
+	}
 	vCover("C09-unary-reached")
 }
